@@ -960,4 +960,200 @@ theorem coreStep_fin_nil {T : LRTables} {md : Option Nat} {c c' : LRCore} (hacc 
       have htm : t ∈ c.input := by rw [hp2]; simp
       exact hne t htm (hd t _ hi) ht0
 
+-- ---------------------------------------------------------------------------------------------
+-- comments: once, in order (C17)
+
+/-- The comment trace so far is the comment tokens of the consumed prefix. -/
+def CmInv (toks : List MTok) (c : LRCore) : Prop :=
+  ∃ pre, toks = pre ++ c.input ∧ c.comments.reverse = commentIds (pre.filter (·.skip))
+
+theorem CmInv_step {T : LRTables} {md : Option Nat} {toks : List MTok} {c : LRCore} (h : CmInv toks c) :
+    CmInv toks (coreStep T md c).st := by
+  obtain ⟨pre, h1, h2⟩ := h
+  obtain ⟨pre2, h3, h4⟩ := coreStep_pre T md c
+  refine ⟨pre ++ pre2, by rw [List.append_assoc, ← h3]; exact h1, ?_⟩
+  rw [h4, h2]
+  simp [commentIds, List.filter_append]
+
+theorem lrCoreRun_comments (T : LRTables) (md : Option Nat) (fuel : Nat) (toks : List MTok)
+    (hacc : acceptOnEoi T = true) (hne : ∀ t ∈ toks, t.skip = false → t.ty ≠ 0)
+    (h : (lrCoreRun T md fuel toks).res = .ok) :
+    (lrCoreRun T md fuel toks).comments = commentIds (toks.filter (·.skip)) := by
+  unfold lrCoreRun at h ⊢
+  have hnext : ∀ c c', CmInv toks c → coreStep T md c = .next c' → CmInv toks c' := by
+    intro c c' hc hst
+    have := CmInv_step (T := T) (md := md) hc
+    rw [hst] at this; exact this
+  have h0 : CmInv toks ⟨[0], toks, [], [], []⟩ := ⟨[], rfl, rfl⟩
+  rcases lrCore_reach T md (CmInv toks) hnext fuel _ 0 h0 with hf | ⟨c0, c', k, hI, ⟨r, hst, hout⟩ | ⟨hst, hout⟩⟩
+  · rw [hf] at h; cases h
+  · rw [hout] at h
+    exact absurd h (coreStep_stop_ne_ok hst)
+  · have hI' := CmInv_step (T := T) (md := md) hI
+    rw [hst] at hI'
+    obtain ⟨pre, hp, hc⟩ := hI'
+    simp only [CoreStepOut.st] at hp hc
+    obtain ⟨pre0, hp0, _⟩ := hI
+    have hne0 : ∀ t ∈ c0.input, t.skip = false → t.ty ≠ 0 := by
+      intro t ht; exact hne t (by rw [hp0]; exact List.mem_append_right _ ht)
+    have hnil := coreStep_fin_nil hacc hne0 hst
+    rw [hnil, List.append_nil] at hp
+    rw [hout, hp]
+    simp only [coreOut, hc]
+
+-- ---------------------------------------------------------------------------------------------
+-- leaves of the tree = all tokens (C14)
+
+/-- Tree events of the whole parse-tree stack, bottom to top. -/
+def ptEvents (pt : List LRItem) : List TreeEv := pt.reverse.flatMap (·.events)
+
+theorem ptEvents_cons (x : LRItem) (pt : List LRItem) : ptEvents (x :: pt) = ptEvents pt ++ x.events := by
+  simp [ptEvents]
+
+theorem ptEvents_append (a b : List LRItem) : ptEvents (a ++ b) = ptEvents b ++ ptEvents a := by
+  simp [ptEvents]
+
+/-- Token ids in the stacked subtrees followed by the ids of the unread input. -/
+def leavesOf (s : LRSt) : List Nat := tokIds (ptEvents s.pt) ++ s.input.map (·.id)
+
+theorem lrDrain_leaves : ∀ (inp : List MTok) (pt : List LRItem) (cm : List Nat),
+    tokIds (ptEvents (lrDrain false inp pt cm).2.1) ++ (lrDrain false inp pt cm).1.map (·.id) =
+      tokIds (ptEvents pt) ++ inp.map (·.id) := by
+  intro inp
+  induction inp with
+  | nil => intro pt cm; rfl
+  | cons t rest ih =>
+    intro pt cm
+    simp only [lrDrain]
+    by_cases hs : t.skip = true
+    · simp only [hs, if_true, Bool.false_eq_true, if_false]
+      rw [ih]
+      simp [ptEvents_cons]
+    · have hs' : t.skip = false := by simpa using hs
+      simp only [hs', Bool.false_eq_true, if_false]
+
+theorem drainSt_leaves (s : LRSt) : leavesOf (drainSt false s) = leavesOf s := by
+  simp only [leavesOf, drainSt]
+  exact lrDrain_leaves s.input s.pt s.comments
+
+theorem callAction_leaves {T : LRTables} {s s' : LRSt} {p n : Nat} (h : callAction T false s p = some (s', n)) :
+    tokIds (ptEvents s'.pt) = tokIds (ptEvents s.pt) := by
+  unfold callAction at h
+  cases hpr : T.prods[p]? with
+  | none => simp [hpr] at h
+  | some pr =>
+    simp only [hpr] at h
+    generalize hp : popN s.pt pr.len = r at h
+    obtain ⟨c, rest⟩ := r
+    simp only at h
+    split at h
+    · cases h
+    · injection h with h
+      injection h with h1 h2
+      subst h1
+      obtain ⟨hpt, _, _⟩ := popN_sig _ _ _ _ hp
+      rw [hpt, ptEvents_append, ptEvents_cons]
+      simp [ptEvents]
+
+theorem lrGoto_st (T : LRTables) (s : LRSt) (n nt : Nat) :
+    (lrGoto T s n nt).st.pt = s.pt ∧ (lrGoto T s n nt).st.input = s.input := by
+  unfold lrGoto
+  split
+  · exact ⟨rfl, rfl⟩
+  · cases s.states.drop n with
+    | nil => exact ⟨rfl, rfl⟩
+    | cons top rest =>
+      simp only
+      cases (T.rows[top]?).bind (fun r => findGoto r nt) with
+      | none => exact ⟨rfl, rfl⟩
+      | some g => exact ⟨rfl, rfl⟩
+
+theorem lrAct_leaves (T : LRTables) (s : LRSt) : leavesOf (lrAct T false s).st = leavesOf s := by
+  unfold lrAct
+  cases hst : s.states with
+  | nil => rfl
+  | cons cur sts =>
+    simp only
+    cases T.rows[cur]? with
+    | none => rfl
+    | some row =>
+      simp only
+      cases findAct row (nextTerm s.input) with
+      | none => rfl
+      | some act =>
+        cases act with
+        | shift next =>
+          simp only
+          cases hin : s.input with
+          | nil => simp only [leavesOf, LRStepOut.st, hin]
+          | cons t rest => simp [leavesOf, LRStepOut.st, ptEvents_cons, hin]
+        | reduce nt p =>
+          simp only
+          cases hca : callAction T false s p with
+          | none => rfl
+          | some x =>
+            obtain ⟨s', n⟩ := x
+            obtain ⟨h1, h2⟩ := lrGoto_st T s' n nt
+            simp only [leavesOf, h1, h2, callAction_leaves hca, (callAction_input hca).1]
+        | accept =>
+          simp only
+          cases T.prods.findIdx? (·.lhs == T.start) with
+          | none => rfl
+          | some p0 =>
+            simp only
+            cases hca : callAction T false s p0 with
+            | none => rfl
+            | some x =>
+              obtain ⟨s', n⟩ := x
+              simp only [leavesOf, LRStepOut.st, callAction_leaves hca, (callAction_input hca).1]
+
+theorem lrStep_leaves (T : LRTables) (o : Opts) (s : LRSt) (htrim : o.trim = false) :
+    leavesOf (lrStep T o s).st = leavesOf s := by
+  unfold lrStep
+  split
+  · rfl
+  · rw [htrim, lrAct_leaves, drainSt_leaves]
+
+theorem lrStep_st_input (T : LRTables) (o : Opts) (s : LRSt) :
+    (lrStep T o s).st.input = (coreStep T o.maxDepth s.core).st.input := by
+  rw [← lrStep_core, LRStepOut.core_st]; rfl
+
+/-- **Leaves = tokens (LR)** on the model run. -/
+theorem lrRun_leaves (T : LRTables) (o : Opts) (fuel : Nat) (toks : List MTok)
+    (hacc : acceptOnEoi T = true) (hne : ∀ t ∈ toks, t.skip = false → t.ty ≠ 0)
+    (htrim : o.trim = false) (h : (lrRun T o fuel toks).res = .ok) :
+    tokIds (lrRun T o fuel toks).tree = toks.map (·.id) := by
+  unfold lrRun at h ⊢
+  let I : LRSt → Prop := fun s => leavesOf s = toks.map (·.id) ∧ ∃ pre, toks = pre ++ s.input
+  have hI : ∀ s, I s → I (lrStep T o s).st := by
+    intro s ⟨h1, pre, h2⟩
+    refine ⟨by rw [lrStep_leaves T o s htrim]; exact h1, ?_⟩
+    obtain ⟨pre2, h3, _⟩ := coreStep_pre T o.maxDepth s.core
+    rw [lrStep_st_input]
+    exact ⟨pre ++ pre2, by rw [List.append_assoc, ← h3]; exact h2⟩
+  have hnext : ∀ s s', I s → lrStep T o s = .next s' → I s' := by
+    intro s s' hs hst
+    have := hI s hs
+    rw [hst] at this; exact this
+  have h0 : I ⟨[0], toks, [], [], []⟩ := ⟨by simp [leavesOf, ptEvents], [], rfl⟩
+  rcases lrLoop_reach T o I hnext fuel _ 0 h0 with hf | ⟨s0, s', k, hI0, ⟨r, hst, hout⟩ | ⟨hst, hout⟩⟩
+  · rw [hf] at h; cases h
+  · rw [hout] at h
+    have hc := lrStep_core T o s0
+    rw [hst] at hc
+    exact absurd h (coreStep_stop_ne_ok hc.symm)
+  · have hI' := hI s0 hI0
+    rw [hst] at hI'
+    obtain ⟨hl, _⟩ := hI'
+    obtain ⟨_, pre0, hp0⟩ := hI0
+    have hc := lrStep_core T o s0
+    rw [hst] at hc
+    have hne0 : ∀ t ∈ s0.core.input, t.skip = false → t.ty ≠ 0 := by
+      intro t ht; exact hne t (by rw [hp0]; exact List.mem_append_right _ ht)
+    have hnil : s'.input = [] := coreStep_fin_nil hacc hne0 hc.symm
+    simp only [LRStepOut.st, leavesOf, hnil, List.map_nil, List.append_nil] at hl
+    rw [hout, htrim]
+    simp only [lrFinish, Bool.false_eq_true, if_false, hnil, lrDrain]
+    simpa [ptEvents] using hl
+
 end ParolModel
